@@ -250,7 +250,7 @@ func init() {
 		id string
 		v  any
 	}{
-		{"int", 42}, {"negint", -42}, {"minint", math.MinInt64}, {"uint64max", uint64(math.MaxUint64)}, {"float", 2.5}, {"bigfloat", 1e300}, {"tinyfloat", 5e-324},
+		{"int", 42}, {"negint", -42}, {"minint", math.MinInt64}, {"uint64max", uint64(math.MaxUint64)}, {"float", 2.5}, {"bigfloat", 1e300}, {"negbigfloat", -1e300}, {"maxfloat", math.MaxFloat64}, {"negmaxfloat", -math.MaxFloat64}, {"float1e21", 1e21}, {"negfloat1e21", -1e21}, {"float1e154", 1.4e154}, {"negfloat1e155", -1.4e155}, {"tinyfloat", 5e-324}, {"negtinyfloat", -5e-324}, {"negzero", math.Copysign(0, -1)},
 		{"inf", math.Inf(1)}, {"neginf", math.Inf(-1)}, {"nan", math.NaN()}, {"true", true}, {"null", nil}, {"empty", ""}, {"string", "text"}, {"backtick", "a`b"}, {"newline", "a\nb"}, {"nul", "a\x00b"}, {"unicode", "é😀"},
 	}
 	shapes := []struct{ id, v string }{
@@ -262,7 +262,7 @@ func init() {
 		ID:    "C01",
 		Level: "exploration",
 		Rule: "service factors {creation(10) x type(3) x import form(5) x getter(2) x must_getter(3) x default_must_getter(3) x scope(4) x tags(3) x calls(4) x fields(3) x decorator(2) x stub(2) x files(2)}: all vectors departing from the base in <= 3 factors (quick) / <= 4 (thorough); " +
-			"parameter literal (18 kinds incl. non-finite floats) x position (5) x stub; pattern shape (17) x position (5); every accepted output: gofmt-stable, go/types clean against the pinned runtime + universe, init() predicate true; covering subset (all single departures; thorough all pairs) compiled, linked and started with and without -tags gontainerstub. non-trivial = accepted and analysed; distinct = distinct configuration",
+			"parameter literal (28 kinds incl. non-finite, huge and tiny floats of both signs) x position (5) x stub; pattern shape (17) x position (5); every accepted output: gofmt-stable, go/types clean against the pinned runtime + universe, init() predicate true; covering subset (all single departures; thorough all pairs) compiled, linked and started with and without -tags gontainerstub. non-trivial = accepted and analysed; distinct = distinct configuration",
 		Assumptions: []string{"go/types with gc export data stands for the compiler on the statically checked outputs; the really compiled subset cross-checks it", "rejected combinations are outside the statement (it starts from exit 0) and only counted"},
 		BudgetQuick: 240 * time.Second, BudgetThorough: 1500 * time.Second,
 		Prepare:     PrepareUniverse,
